@@ -81,6 +81,9 @@ type cfg struct {
 	// ctrlGet: the controller also Gets this id through its runtime in every reconcile (a cache miss first, the
 	// resource is created and updated by the script)
 	ctrlGet string
+	// tctxEvery: the controller obtains a new teardown-bound context in every reconcile (not only in the first one,
+	// which belongs to the deterministic start-up)
+	tctxEvery bool
 }
 
 // coalescer forwards aggregated kind watches through a goroutine that may glue a batch to the next one.
@@ -165,20 +168,23 @@ func body(c cfg, x *explore.X) {
 	var reads []read
 	lastStart, nRec := -1, 0
 	var lastList string
-	var tctx context.Context
-	tctxLo, tctxHi := -1, -1
+	type boundCtx struct {
+		ctx    context.Context
+		lo, hi int
+	}
+	var tctxs []boundCtx
 	p := &px.Probe{NameV: "c0", InputsV: []controller.Input{{Namespace: hx.NS, Type: tInt, Kind: controller.InputWeak}}}
 	p.OnEvent = func(ctx context.Context, r controller.Runtime, n int) error {
 		start := log.Len()
 		vrt.Yield()
-		if c.teardown != "" && tctx == nil {
-			tctxLo = log.Len()
-			var err error
-			tctx, err = r.ContextWithTeardown(ctx, hx.IntPtr(c.teardown))
+		if c.teardown != "" && (len(tctxs) == 0 || c.tctxEvery) {
+			tlo := log.Len()
+			tctx, err := r.ContextWithTeardown(ctx, hx.IntPtr(c.teardown))
 			if err != nil {
-				panic(err)
+				return nil //nolint:nilerr // cancelled during shutdown
 			}
-			tctxHi = log.Len()
+			vrt.TouchKey("c15.reads", true)
+			tctxs = append(tctxs, boundCtx{tctx, tlo, log.Len()})
 		}
 		lo := log.Len()
 		l, err := r.List(ctx, hx.IntKind())
@@ -352,26 +358,26 @@ func body(c cfg, x *explore.X) {
 		x.Failf("the cache lags behind the notification: the controller's last reconcile read %q, the final state is %q", lastList, renderList(states[n]))
 	}
 	// teardown-bound context
-	if tctx != nil {
+	for i, t := range tctxs {
 		torn := func(k int) bool {
 			s, ok := states[k][c.teardown]
 			return !ok || strings.Contains(s, " TD")
 		}
 		must, may := false, false
-		for k := tctxLo; k <= n; k++ {
+		for k := t.lo; k <= n; k++ {
 			if torn(k) {
 				may = true
-				if k >= tctxHi {
+				if k >= t.hi {
 					must = true
 				}
 			}
 		}
-		cancelled := tctx.Err() != nil
+		cancelled := t.ctx.Err() != nil
 		if must && !cancelled {
-			x.Failf("teardown-bound context of %s (obtained at index %d..%d) is not cancelled although the resource is torn down / removed in the final state", c.teardown, tctxLo, tctxHi)
+			x.Failf("teardown-bound context #%d of %s (obtained at index %d..%d) is not cancelled although the resource is torn down / removed in the final state", i, c.teardown, t.lo, t.hi)
 		}
 		if cancelled && !may {
-			x.Failf("teardown-bound context of %s was cancelled although the resource was running throughout", c.teardown)
+			x.Failf("teardown-bound context #%d of %s was cancelled although the resource was running throughout", i, c.teardown)
 		}
 	}
 	x.Outcome("reconciles=%d reads=%d", nRec, len(reads))
@@ -652,6 +658,8 @@ func build(tier string) []explore.Scenario {
 		{name: "steady/update-destroy-unlabel/1reader", pre: []wop{"create a", "create b"}, script: []wop{"unlabel a", "destroy b"}, prologue: true, readers: 1, nReads: 2, bounds: b0},
 		{name: "steady/2readers", pre: []wop{"create a"}, script: []wop{"update a", "update a"}, prologue: true, readers: 2, nReads: 1, bounds: b2r},
 		{name: "teardown-context/teardown", pre: []wop{"create a", "create b"}, script: []wop{"update a", "teardown a"}, prologue: true, readers: 0, bounds: b1, teardown: "a"},
+		{name: "teardown-context/teardown/obtained-in-every-reconcile", pre: []wop{"create a", "create b"}, script: []wop{"update a", "teardown a"}, prologue: true, readers: 0, bounds: b1, teardown: "a", tctxEvery: true},
+		{name: "teardown-context/destroy/obtained-in-every-reconcile", pre: []wop{"create a", "create b"}, script: []wop{"update b", "destroy a"}, prologue: true, readers: 0, bounds: b1, teardown: "a", tctxEvery: true},
 		{name: "teardown-context/destroy", pre: []wop{"create a", "create b"}, script: []wop{"destroy a"}, prologue: true, readers: 0, bounds: b1, teardown: "a"},
 		{name: "teardown-context/untouched", pre: []wop{"create a", "create b"}, script: []wop{"update b", "destroy b"}, prologue: true, readers: 0, bounds: b0, teardown: "a"},
 		{name: "teardown-context/absent", pre: []wop{"create b"}, script: []wop{"update b"}, prologue: true, readers: 0, bounds: b0, teardown: "a"},
